@@ -371,6 +371,17 @@ impl SetSpec {
         }
     }
 
+    /// Settings for a gradual calculator in monitors that only compare a calculation with itself (same settings on both
+    /// sides): half of the specs that carry `passed_objects` keep it - whatever a gradual calculator makes of it, it has to
+    /// do so deterministically, identically in every build and on every thread, and without undefined behaviour.
+    pub fn for_gradual(&self) -> Self {
+        if self.passed.is_some_and(|p| p % 2 == 0) {
+            self.clone()
+        } else {
+            self.without_passed()
+        }
+    }
+
     pub fn with_passed(&self, n: u32) -> Self {
         Self {
             passed: Some(n),
